@@ -357,8 +357,8 @@ func (in *Interp[K, V]) execAssoc(st Step) map[string]any {
 		// value-reading consumers must not be given shared (masked) associations
 		if o.kind != "Catalog" && o.kind != "Map" {
 			for _, t := range projectSeq(elA, o.v.(col.Sequential[col.AssociationLike[K, V]])) {
-				if p, ok := t.([]int); ok && p[1] == -1 {
-					panic(skip("operand holds shared associations"))
+				if c, ok := t.(int); !ok || c < 1000 || AVal(c) < 0 {
+					panic(skip("operand holds shared, nil or unknown associations"))
 				}
 			}
 		}
